@@ -16,6 +16,7 @@ for round in $rounds; do
         number_ordered_form.py) props="C08 C07";;
         second_quantization.py) props="C07 C16";;
         linalg.py) props="C17 C06 C16";;
+        kpm.py) props="C06 C16";;
         algorithm_parsing.py) props="C09 C12 C02";;
         *) props="C01 C09";;
       esac
